@@ -62,6 +62,7 @@ type Exec struct {
 	prog    *ssa.Program
 	tf      *TermFactory
 	solver  *Solver
+	isolver *Solver
 	globals map[*ssa.Global]*Obj
 	initDone map[*ssa.Package]bool
 
@@ -140,6 +141,26 @@ func (ex *Exec) addPC(c *Term) {
 	}
 }
 
+// check routes a query to the integer (LIA) solver when every term is overflow-free ("safe"), which
+// makes the integer reading exactly equivalent to the bit-vector one, and to the bit-vector solver otherwise.
+func (ex *Exec) check(q []*Term, wantModel bool) (SatResult, map[string]uint64) {
+	if ex.isolver != nil {
+		safe := true
+		for _, t := range q {
+			if !t.safe {
+				safe = false
+				break
+			}
+		}
+		if safe {
+			ex.stats.IntQueries++
+			return ex.isolver.Check(q, wantModel)
+		}
+	}
+	ex.stats.BVQueries++
+	return ex.solver.Check(q, wantModel)
+}
+
 // feasible checks whether pc ∧ c is satisfiable. Unknown counts as feasible (no claim is made from it).
 func (ex *Exec) feasible(c *Term) bool {
 	if c.IsTrue() {
@@ -152,7 +173,7 @@ func (ex *Exec) feasible(c *Term) bool {
 		return true
 	}
 	q := append(append([]*Term{}, ex.pc...), c)
-	r, m := ex.solver.Check(q, true)
+	r, m := ex.check(q, true)
 	ex.stats.FeasQueries++
 	switch r {
 	case Unsat:
@@ -273,7 +294,7 @@ func (ex *Exec) concretize(t *Term, what string) int64 {
 		// need t in the query to get its value
 		probe := ex.tf.Var("$probe", t.w)
 		q = append(q, ex.tf.Eq(probe, t))
-		r, m := ex.solver.Check(q, true)
+		r, m := ex.check(q, true)
 		ex.stats.FeasQueries++
 		if r == Unsat {
 			break
